@@ -470,6 +470,10 @@ package silence
 //@   ensures [well-formed] result == nil ==> (forall k string :: k in s.st ==> s.st[k] != nil && s.st[k].Silence != nil && s.st[k].Silence.Id == k)
 //@   ensures [version-bumped] result == nil ==> s.version == old(s.version) + 1
 //@   ensures [listed-under-the-new-version] result == nil ==> (forall i int :: 0 <= i && i < len(s.vi) ==> s.vi[i].version == s.version)
+// completeness (as loop invariants): every decoded silence visited is offered to the matcher index, and the state
+// shrinks only by the silences whose matchers did not compile - ended, expired or odd silences are all kept
+//@   loop 1 invariant count("matcherIndex).add") == len(visited) && count("matcherIndex).add") >= countnil1("matcherIndex).add") && countnil1("matcherIndex).add") >= 0
+//@   loop 1 invariant len(st) + (count("matcherIndex).add") - countnil1("matcherIndex).add")) == pre(len(st))
 //@   loop 1 invariant s.version == old(s.version) && (forall i int :: 0 <= i && i < len(vi) ==> vi[i].version == old(s.version) + 1)
 //@   loop 1 invariant fresh(vi) && fresh(mi) && fresh(st) && mi != st
 //@   loop 1 invariant forall k string :: k in st ==> pre(k in st)
@@ -758,3 +762,22 @@ package silence
 //@   at call state).MarshalBinary assert [state-of-this-store-under-lock] arg0 == s.st && count("RWMutex).RLock") == 1 && count("RWMutex).RUnlock") == 0
 //@   ensures [full-state] result0 == ret("state).MarshalBinary") && result1 == ret1("state).MarshalBinary")
 //@   noeffect state).MarshalBinary
+
+// ---- C02 / C12: a silencer starts with an empty cache over the store it was given (so nothing cached before a
+// restart or reload can be served afterwards).
+//@ func NewSilencer
+//@   props C02
+//@   ensures [empty-cache-over-the-given-store] result != nil && fresh(result) && result.silences == silences && result.cache != nil && fresh(result.cache)
+//@             && result.cache.entries != nil && fresh(result.cache.entries) && len(result.cache.entries) == 0
+//@   assigns nothing
+
+// one silence by query: the first answer of the query, not-found for an empty answer, the query's error otherwise
+//@ func (*Silences).QueryOne
+//@   props C12 C02
+//@   nosafe
+//@   requires ErrNotFound != nil
+//@   at call Silences).Query assert [the-same-parameters] arg0 == s && arg2 == params
+//@   ensures [query-error-is-reported] ret2("Silences).Query") != nil ==> result0 == nil && result1 == ret2("Silences).Query")
+//@   ensures [empty-answer-is-not-found] ret2("Silences).Query") == nil && len(ret("Silences).Query")) == 0 ==> result0 == nil && result1 == ErrNotFound
+//@   ensures [first-answer] ret2("Silences).Query") == nil && len(ret("Silences).Query")) > 0 ==> result0 == ret("Silences).Query")[0] && result1 == nil
+//@   noeffect Silences).Query
